@@ -13,16 +13,51 @@ theorem fKey_inj_of_nonzero (a b : Nat) (h : fKey a = fKey b) (hz : fMag a ≠ 0
 theorem fKey_zero_iff (a : Nat) : fKey a = 0 ↔ fMag a = 0 := by
   unfold fKey fMag; split <;> omega
 
+/-- floats that are `==` get the same zero-normalised bit pattern -/
+theorem fEq_same_normalised (a b : Nat) (h : fEq a b = true) :
+    (if fIsZero a then (0 : Nat) else a) = (if fIsZero b then 0 else b) := by
+  simp only [fEq, Bool.and_eq_true, Bool.not_eq_true', decide_eq_true_eq] at h
+  obtain ⟨⟨_, _⟩, hk⟩ := h
+  by_cases ha : fMag a = 0
+  · have hb : fMag b = 0 := (fKey_zero_iff b).1 (hk ▸ (fKey_zero_iff a).2 ha)
+    simp [fIsZero, ha, hb]
+  · have := fKey_inj_of_nonzero a b hk ha
+    subst this; rfl
+
+/-- JSON numbers that are equal (`impl PartialEq for N`) are the same number once float zeros are `0.0` -/
+theorem jnum_eq_same_posZero (a b : JNum) (h : JNum.eq a b = true) : a.posZero = b.posZero := by
+  cases a <;> cases b <;> simp_all [JNum.eq, JNum.posZero]
+  case flt.flt x y =>
+    have := fEq_same_normalised x y h
+    by_cases hx : fIsZero x <;> by_cases hy : fIsZero y <;> simp_all
+
+/-- **what the repair of f72f348f rests on**: JSON values that are equal under `serde_json::Value`'s
+    `PartialEq` are the same tree after `json_with_positive_zeros` (hence render to the same text and land in
+    the same hash bucket) -/
+theorem json_eq_same_posZeros : ∀ (a b : Json), Json.eq a b = true → a.posZeros = b.posZeros := by
+  intro a
+  induction a with
+  | null => intro b h; cases b <;> simp_all [Json.eq]
+  | bool x => intro b h; cases b <;> simp_all [Json.eq]
+  | num n => intro b h; cases b <;> simp_all [Json.eq, Json.posZeros]; exact jnum_eq_same_posZero _ _ h
+  | str x => intro b h; cases b <;> simp_all [Json.eq]
+  | anil => intro b h; cases b <;> simp_all [Json.eq]
+  | acons hd tl ih1 ih2 =>
+    intro b h
+    cases b <;> simp_all [Json.eq, Json.posZeros]
+    exact ⟨ih1 _ h.1, ih2 _ h.2⟩
+  | onil => intro b h; cases b <;> simp_all [Json.eq]
+  | ocons k v r ih1 ih2 =>
+    intro b h
+    cases b <;> simp_all [Json.eq, Json.posZeros]
+    exact ⟨ih1 _ h.1.2, ih2 _ h.2⟩
+
 theorem eq_implies_same_hashKey (v w : Value) (h : Value.eq v w = true) : hashKey v = hashKey w := by
   cases v <;> cases w <;> simp_all [Value.eq, hashKey]
   case float.float a b =>
-    simp only [fEq, Bool.and_eq_true, Bool.not_eq_true', decide_eq_true_eq] at h
-    obtain ⟨⟨_, _⟩, hk⟩ := h
-    by_cases ha : fMag a = 0
-    · have hb : fMag b = 0 := (fKey_zero_iff b).1 (hk ▸ (fKey_zero_iff a).2 ha)
-      simp [fIsZero, ha, hb]
-    · have := fKey_inj_of_nonzero a b hk ha
-      subst this; rfl
+    have := fEq_same_normalised a b h
+    by_cases ha : fIsZero a <;> by_cases hb : fIsZero b <;> simp_all
+  case json.json a _ b _ => exact json_eq_same_posZeros a b h
 
 theorem icmp_lt (a b : Int) : icmp a b = .lt ↔ a < b := by unfold icmp; split <;> simp_all <;> split <;> simp_all
 
@@ -514,6 +549,7 @@ theorem vecFilter_eq (t : Table) (c : Cond) :
       | str s => simp [vecFilter] at h
       | bool b => simp [vecFilter] at h
       | bytes b => simp [vecFilter] at h
+      | json j tx => simp [vecFilter] at h
   | ne col v =>
     intro bits h
     cases col with
@@ -529,6 +565,7 @@ theorem vecFilter_eq (t : Table) (c : Cond) :
       | str s => simp [vecFilter] at h
       | bool b => simp [vecFilter] at h
       | bytes b => simp [vecFilter] at h
+      | json j tx => simp [vecFilter] at h
   | rng op col v =>
     intro bits h
     cases col with
@@ -555,6 +592,7 @@ theorem vecFilter_eq (t : Table) (c : Cond) :
       | str s => cases op <;> simp [vecFilter] at h
       | bool b => cases op <;> simp [vecFilter] at h
       | bytes b => cases op <;> simp [vecFilter] at h
+      | json j tx => cases op <;> simp [vecFilter] at h
   | and a b iha ihb =>
     intro bits h
     simp only [vecFilter] at h
